@@ -1,11 +1,182 @@
+(** C18 — Masked data: compression round-trips and mask rules are as documented.
+    Model: FV.Mask on FV.Arr (to_compressed / from_compressed / prepare / masks_compatible /
+    masks_equal / Info.accepts (mask part) / metadata exchange over a link).
+    This file contains only statements; proofs are in FVP.Mask_proofs (and FVP.Arr_proofs).
+    Arrays have ANY rank (shape = list of any length); the property's "up to 3 dimensions" is a
+    special case. *)
 From Coq Require Import List ZArith Bool Arith.
 From FV Require Import Base Arr Mask.
 From FVP Require Import Arr_proofs Mask_proofs.
 Import ListNotations.
 
-Theorem C18_compress_length : forall A (a : arr A) (m : arr bool) (o : order),
-  ashape m = ashape a ->
-  to_compressed a (OwnBits m) o MUnset
-  = map (aget a) (filter (fun idx => negb (aget m idx)) (indices o (ashape a))).
-Proof. exact compressed_spec. Qed.
+(** [uses_mask w arg m]: the helpers work with mask [m], given either as the mask of a MaskedArray
+    (masked-array call form, the [mask] argument is then ignored) or as separate [mask] argument
+    next to a plain array.  Quantified (pint) arrays behave like their magnitudes. *)
+
+(** Round trip: for every array [a] of any shape, every mask [m] of that shape, both memory orders,
+    both call forms, with or without extra keyword arguments: expanding the compressed vector with
+    the same shape, order and mask yields a MaskedArray with exactly the mask [m] whose entry at
+    every unmasked position is the original value of that position (masked positions carry none). *)
+Theorem C18_roundtrip :
+  forall (A : Type) (a : arr A) (m : arr bool) (o : order) (w : ownmask) (arg : mspec) (kw : bool),
+    uses_mask w arg m -> ashape m = ashape a ->
+    exists d,
+      from_compressed (to_compressed a w o arg) (ashape a) o (MBits m) kw = FcMasked d (Some m)
+      /\ ashape d = ashape a
+      /\ forall idx, in_range (ashape a) idx ->
+           (aget m idx = false -> aget d idx = Some (aget a idx))
+           /\ (aget m idx = true -> aget d idx = None).
+Proof. exact roundtrip. Qed.
+
+(** The mask-free forms (mask argument None / FLEX / NONE / nomask, or a MaskedArray with nomask):
+    every value returns to its position; the result is a plain array, or a MaskedArray without
+    masked entries when nomask or keyword arguments are given; Mask.NONE with keyword arguments
+    is refused (FinamDataError). *)
+Theorem C18_roundtrip_unmasked :
+  forall (A : Type) (a : arr A) (o : order) (w : ownmask) (arg : mspec) (kw : bool),
+    uses_no_mask w arg ->
+    let eff := effective_mask w arg in
+    match from_compressed (to_compressed a w o arg) (ashape a) o eff kw with
+    | FcErr => kw = true /\ eff = MNone
+    | FcPlain d =>
+        kw = false /\ is_mask eff = false /\ ashape d = ashape a
+        /\ forall idx, in_range (ashape a) idx -> aget d idx = Some (aget a idx)
+    | FcMasked d mm =>
+        mm = None /\ (kw = true \/ eff = MNomask) /\ ashape d = ashape a
+        /\ forall idx, in_range (ashape a) idx -> aget d idx = Some (aget a idx)
+    end.
+Proof. exact roundtrip_unmasked. Qed.
+
+(** The compressed vector consists of the values at the unmasked multi-indices, listed in the
+    requested memory order ([indices o] enumerates the shape in C or Fortran order); its length is
+    the number of unmasked entries (which does not depend on the order). *)
+Theorem C18_compress_length :
+  forall (A : Type) (a : arr A) (m : arr bool) (o : order) (w : ownmask) (arg : mspec),
+    uses_mask w arg m -> ashape m = ashape a ->
+    to_compressed a w o arg
+      = map (aget a) (filter (fun idx => negb (aget m idx)) (indices o (ashape m)))
+    /\ length (to_compressed a w o arg) = unmasked_count m.
+Proof.
+  intros A a m o w arg Hu Hs. split.
+  - exact (compressed_spec A a m o w arg Hu Hs).
+  - exact (compressed_length A a m o w arg Hu Hs).
+Qed.
+
+(** Preparing plain (not yet masked) data of any accepted payload form — flat vector, grid-shaped,
+    grid-shaped with time axis — for a grid of any data shape and either memory order under an
+    info with the fixed mask [m] yields exactly the mask [m] (C-order listing of the result's mask
+    = C-order listing of [m]); under nomask an all-false mask of the grid's size; and the data are
+    the payload laid out in the grid's order. *)
+Theorem C18_prepare_mask :
+  forall (A : Type) (sh : shape) (o : order) (form : payload_form) (vals : list A) (d : A) (m : arr bool),
+    ashape m = sh -> length vals = size sh ->
+    snd (prepare_mask sh o form vals d None (MBits m)) = Some (ravel OC m)
+    /\ (exists bits, snd (prepare_mask sh o form vals d None MNomask) = Some bits
+          /\ length bits = size sh /\ forall b, In b bits -> b = false)
+    /\ (forall im, mask_specified im = false -> snd (prepare_mask sh o form vals d None im) = None)
+    /\ forall idx, in_range sh idx ->
+         nth (flat OC sh idx) (fst (prepare_mask sh o form vals d None (MBits m))) d
+         = nth (match form with Flat => flat o sh idx | _ => flat OC sh idx end) vals d.
+Proof.
+  intros A sh o form vals d m Hs Hl. repeat split.
+  - apply prepare_fixed_mask; auto.
+  - apply prepare_nomask.
+  - intros im Him. apply prepare_unmasked; auto.
+  - intros idx Hi. apply prepare_data; auto.
+Qed.
+
+(** Acceptance during connect.  [doc_accepts c cg p pg] is the documented relation "a consumer
+    with mask specification [c] on grid [cg] accepts a producer with [p] on [pg]":
+      FLEX consumer  : every producer whose mask is set (FLEX, NONE, nomask, explicit);
+      NONE consumer  : only NONE producers;
+      fixed consumer (nomask or explicit bits): only fixed producers whose mask is equal after
+        [to_canonical] on both grids (nomask = all-false; a side without grid is compared as is);
+      an unset producer mask is never accepted (and an unset consumer mask never asks).
+    [masks_compatible] decides exactly this relation, in both directions of the call. *)
+Theorem C18_acceptance_table :
+  forall (c p : mspec) (cg pg : option gspec),
+    (masks_compatible c p false cg pg = true <-> doc_accepts c cg p pg)
+    /\ masks_compatible p c true pg cg = masks_compatible c p false cg pg
+    /\ masks_compatible c MUnset false cg pg = false
+    /\ (c <> MUnset -> (accepts_mask c cg p pg false = true <-> doc_accepts c cg p pg)).
+Proof.
+  intros c p cg pg. split; [apply acceptance_table|]. split; [apply compatible_direction|].
+  split; [apply unset_producer_refused|]. apply accepts_consumer.
+Qed.
+
+(** A whole metadata exchange over a link (output side check, grid adoption, input side check):
+    if it succeeds for a consumer with a set mask, the documented relation holds between the two
+    ends and the input ends up with the producer's mask; and if the relation holds it succeeds. *)
+Theorem C18_exchange :
+  forall (om im : mspec) (og ig : option gspec),
+    im <> MUnset ->
+    (forall r, exchange om og im ig = Some r ->
+       r = om /\ doc_accepts im ig om (match og with Some g => Some g | None => ig end))
+    /\ (forall g', (match og with Some g => Some g | None => ig end) = Some g' ->
+          doc_accepts im ig om og -> doc_accepts im ig om (Some g') ->
+          exchange om og im ig = Some om).
+Proof.
+  intros om im og ig Him. split.
+  - intros r H. eapply exchange_sound; eauto.
+  - intros g' Eg H1 H2. eapply exchange_complete; eauto.
+Qed.
+
+(** "Equal after accounting for the layout" is meaningful: [to_canonical] loses nothing
+    ([from_canonical] inverts it for every layout, any rank, any axes_increase vector). *)
+Theorem C18_canonical_invertible :
+  forall (A : Type) (g : gspec) (a : arr A), arr_eq (from_canonical g (to_canonical g a)) a.
+Proof. exact from_to_canonical. Qed.
+
+(** * Non-vacuity *)
+
+Definition ex_a : arr Z := of_list OC [3; 2] [10; 11; 12; 13; 14; 15]%Z 0%Z.
+Definition ex_m : arr bool := of_list OC [3; 2] [true; false; false; false; false; true] false.
+
+(** 3x2 array, partial mask, Fortran order, separate-mask form: hypotheses hold, the compressed
+    vector is in F order and the expansion restores the unmasked values *)
+Example C18_roundtrip_nonvacuous :
+  uses_mask Plain (MBits ex_m) ex_m /\ ashape ex_m = ashape ex_a
+  /\ to_compressed ex_a Plain OF (MBits ex_m) = [12; 14; 11; 13]%Z
+  /\ unmasked_count ex_m = 4
+  /\ fc_observe (from_compressed [12; 14; 11; 13]%Z [3; 2] OF (MBits ex_m) false)
+     = RMasked [3; 2] [None; Some 11; Some 12; Some 13; Some 14; None]%Z
+               [true; false; false; false; false; true].
+Proof. repeat split; try (vm_compute; reflexivity). right. split; reflexivity. Qed.
+
+Example C18_roundtrip_unmasked_nonvacuous :
+  uses_no_mask Plain MNomask
+  /\ fc_observe (from_compressed (to_compressed ex_a Plain OF MNomask) [3; 2] OF MNomask false)
+     = RMasked [3; 2] [Some 10; Some 11; Some 12; Some 13; Some 14; Some 15]%Z
+               [false; false; false; false; false; false].
+Proof. split; [right; split; [reflexivity|discriminate]|vm_compute; reflexivity]. Qed.
+
+(** flat payload on a Fortran-ordered 3x2 grid under a fixed, non-symmetric mask *)
+Definition ex_m2 : arr bool := of_list OC [3; 2] [true; true; false; false; false; false] false.
+Example C18_prepare_nonvacuous :
+  ashape ex_m2 = [3; 2] /\ length [0; 1; 2; 3; 4; 5]%Z = size [3; 2]
+  /\ prepare_mask [3; 2] OF Flat [0; 1; 2; 3; 4; 5]%Z 0%Z None (MBits ex_m2)
+     = ([0; 3; 1; 4; 2; 5]%Z, Some [true; true; false; false; false; false]).
+Proof. repeat split; vm_compute; reflexivity. Qed.
+
+(** the same physical mask on a 2x3 grid and on its transposed, y-flipped layout is accepted;
+    the raw-equal bit pattern on a flipped layout is not; FLEX accepts; NONE refuses nomask *)
+Definition ex_p : arr bool := of_list OC [2; 3] [true; false; false; false; false; false] false.
+Definition ex_c : arr bool := of_list OC [3; 2] [false; false; false; false; true; false] false.
+Example C18_acceptance_nonvacuous :
+  masks_compatible (MBits ex_c) (MBits ex_p) false
+     (Some (GStruct true [true; false])) (Some (GStruct false [true; true])) = true
+  /\ masks_compatible (MBits ex_p) (MBits ex_p) false
+     (Some (GStruct false [true; false])) (Some (GStruct false [true; true])) = false
+  /\ masks_compatible MFlex (MBits ex_p) false None None = true
+  /\ masks_compatible MNone MNomask false None None = false
+  /\ exchange (MBits ex_p) (Some (GStruct false [true; true])) (MBits ex_c)
+       (Some (GStruct true [true; false])) <> None.
+Proof. repeat split; try (vm_compute; reflexivity). intro H. vm_compute in H. discriminate H. Qed.
+
+Print Assumptions C18_roundtrip.
+Print Assumptions C18_roundtrip_unmasked.
 Print Assumptions C18_compress_length.
+Print Assumptions C18_prepare_mask.
+Print Assumptions C18_acceptance_table.
+Print Assumptions C18_exchange.
+Print Assumptions C18_canonical_invertible.
